@@ -47,6 +47,9 @@ checks = {
     "C07": dict(engine="chainmc", cat="model_checking", tech="explicit-state BFS with every transition re-executed under every enumerated map-iteration start (runtime overlay pins mapiterinit's random draw per goroutine): 8 offsets x up to 4 start buckets for all iterations, then per-iteration for the first 6",
                 text="For every transaction in every explored state, executions with every enumerated Go map iteration order produce byte-identical state writes, result data, error and events, and agree with the free-running execution; all map iterations performed by akash code were over single-bucket maps, for which the 8 start offsets are all possible orders.", ref="6 C07",
                 note="trusted base: determinism of cosmos-sdk / tendermint infrastructure over multi-bucket maps (varied over 32 starts of one layout, not exhaustively: layout depends on the per-map hash seed); handlers read no clock or randomness; patched copy of runtime/map.go supplied through -overlay (GOROOT untouched)"),
+    "C15": dict(engine="gosched", cat="model_checking", tech="stateless exhaustive exploration of all interleavings (unbounded preemptions, history-hash pruning) of the real instrumented pubsub bus + go-lifecycle under a controlled cooperative scheduler; per-execution stream oracle",
+                text="For 20 (quick) / 25 (thorough) client configurations (publishers, subscribers that read / stall / close, concurrent Clone, closers of a subscriber or the bus, all subscriber map-iteration rotations) every interleaving at channel/select/sync granularity is executed on the real code: each subscriber's stream is duplicate-free, gap-free and in publication order, a clone receives exactly what the original had not handed out plus later events, and every Publish/Subscribe/Clone/Close call returns.", ref="6 C15",
+                note="trusted base: interleaving granularity = code between two channel/select/sync operations (unsynchronised accesses are covered only by the supplementary free-running -race pass); the instrumenter's rewrite table; bounded configurations as listed in the evidence"),
 }
 
 m = {
